@@ -249,6 +249,8 @@ def mutate_box(box, system, how, cell, pbcw):
         how = 'set_vects'           # those three describe LAMMPS-oriented cells only
     if how == 'set_hi_los' and np.abs(ot).max() > 1e6 * min(abs(float(cell[k])) * float(cell.get('scale', 1.0)) for k in ('lx', 'ly', 'lz')):
         how = 'set_lengths'         # lo/hi bounds cannot describe a cell that is below the rounding of its own origin
+    if how == 'sys_box_set_scale' and system is not None and np.asarray(system.atoms.pos).dtype.itemsize < 8:
+        how = 'sys_box_set'         # re-scaling narrow-float positions between cells of very different size leaves the dtype's range
     if system is None and (how.startswith('sys_') or how == 'wrap'):
         raise HarnessError('history %r needs a System' % how)
     unit = float(cell.get('scale', 1.0))
